@@ -61,7 +61,7 @@ fn main() {
             let r = match id.as_str() {
                 "C11" => rosu_verif::props::c11::fuzz_text(&text).ok(),
                 "C12" => rosu_verif::props::c12::fuzz_domain([data[0], data[1], data[2]], &text),
-                _ => rosu_verif::props::c14::fuzz_text(&text).ok(),
+                _ => rosu_verif::props::c14::fuzz_text(data[0], &text).ok(),
             };
             match r {
                 Some(true) => inn += 1,
@@ -144,7 +144,7 @@ fn main() {
             }
             Ok(Err(fail)) => {
                 println!("VIOLATION property={id} replay={path}");
-                println!("  detail: {}", fail.msg);
+                println!("  detail: {}", fail.msg.lines().take(40).map(|l| l.chars().take(2000).collect::<String>()).collect::<Vec<_>>().join("\n"));
                 std::process::exit(1);
             }
             Err(e) => {
